@@ -42,12 +42,52 @@ func (c15) Cases(tier string, seed int64, kf *KnownFindings) []Case {
 	return cs
 }
 
-var c15entries = []string{"Encoder.WriteTo", "Encoder.WriteObject#1", "Encoder.WriteObject#2", "Encoder.WriteObject#3", "Serializer.WriteTo", "Serializer.Write#2"}
+var c15entries = []string{"Encoder.WriteTo", "Encoder.WriteObject#1", "Encoder.WriteObject#2", "Encoder.WriteObject#3", "Serializer.WriteTo", "Serializer.Write#2", "used Encoder.WriteTo", "used Serializer.WriteTo", "used pooled Serializer.WriteTo"}
+
+// c15used: ONE encoder / serializer / pool per value for the "used" entry points. Before the first fault it
+// has seen a history (a 10050-link chain, an unsupported value, a value onto a dead writer, a recovered
+// panic from the caller's writer); afterwards every faulted call is history for the next one.
+type c15used struct {
+	enc  *hessian.Encoder
+	ser  hessian.Serializer
+	pool hessian.Pool
+}
+
+var c15deep = func() *zoo.Node {
+	head := &zoo.Node{Val: 0}
+	for i, n := 1, head; i < 10050; i++ {
+		n.Next = &zoo.Node{Val: int32(i)}
+		n = n.Next
+	}
+	return head
+}()
+
+type panickyWriter struct{}
+
+func (panickyWriter) Write(p []byte) (int, error) { panic("c15: the caller's writer panics") }
+
+func newC15used(nameMap map[string]string) *c15used {
+	nm := copyNames(nameMap)
+	nm["Node"] = "Node"
+	u := &c15used{enc: hessian.NewEncoder(nil, nm), ser: hessian.NewSerializer(nil, copyNames(nm)), pool: hessian.NewSerializerPool(1, nil, copyNames(nm))}
+	history := func(writeTo func(w io.Writer, v interface{}) error) {
+		writeTo(io.Discard, c15deep)
+		writeTo(io.Discard, []interface{}{int32(1), make(chan int)})
+		writeTo(&mon.CountingWriter{Kind: mon.FaultFrom, K: 1}, []interface{}{"x", nil})
+		Guard(func() { writeTo(panickyWriter{}, map[string]interface{}{"k": []interface{}{nil}}) })
+	}
+	history(u.enc.WriteTo)
+	history(u.ser.WriteTo)
+	ps := u.pool.Get().(hessian.Serializer)
+	history(ps.WriteTo)
+	u.pool.Return(ps)
+	return u
+}
 
 // c15call runs one encode call of `val` through an entry point on writer w.
 // Values written before the call under test (prefix) go to a separate, healthy phase:
 // the fault index is counted from the start of the call under test.
-func c15call(entry int, val interface{}, nameMap map[string]string, w *mon.CountingWriter, kind mon.FaultKind, k int) error {
+func c15call(entry int, val interface{}, nameMap map[string]string, w *mon.CountingWriter, kind mon.FaultKind, k int, used *c15used) error {
 	arm := func() {
 		w.Calls = 0
 		w.Kind, w.K = kind, k
@@ -69,6 +109,17 @@ func c15call(entry int, val interface{}, nameMap map[string]string, w *mon.Count
 		return e.WriteObject(val)
 	case 4:
 		s := hessian.NewSerializer(nil, nameMap)
+		arm()
+		return s.WriteTo(w, val)
+	case 6:
+		arm()
+		return used.enc.WriteTo(w, val)
+	case 7:
+		arm()
+		return used.ser.WriteTo(w, val)
+	case 8:
+		s := used.pool.Get().(hessian.Serializer)
+		defer used.pool.Return(s)
 		arm()
 		return s.WriteTo(w, val)
 	default:
@@ -122,13 +173,18 @@ func (c15) Run(c Case, env *Env) Result {
 		if pi != nil {
 			continue
 		}
+		var used *c15used
+		if pi, _ := Guard(func() { used = newC15used(nameMap) }); pi != nil {
+			env.Viol(&res, Violation{Class: "panic", Features: feats, Detail: "building the used instances: " + pi.Msg, Case: cc, Input: describe(val)})
+			continue
+		}
 		multi := hasMultiEntryMap(reflect.ValueOf(val), 0)
 		vh := Hash64(describe(val))
 		for entry := range c15entries {
 			// fault-free run
 			w := &mon.CountingWriter{}
 			var err0 error
-			pi, _ := Guard(func() { err0 = c15call(entry, val, copyNames(nameMap), w, mon.FaultNone, 0) })
+			pi, _ := Guard(func() { err0 = c15call(entry, val, copyNames(nameMap), w, mon.FaultNone, 0, used) })
 			if pi != nil || err0 != nil {
 				res.Count("fault_free_run_failed", 1) // C01/C13's business
 				break
@@ -139,7 +195,7 @@ func (c15) Run(c Case, env *Env) Result {
 			res.Count("values_x_entrypoints", 1)
 			if !multi {
 				w2 := &mon.CountingWriter{}
-				c15call(entry, val, copyNames(nameMap), w2, mon.FaultNone, 0)
+				c15call(entry, val, copyNames(nameMap), w2, mon.FaultNone, 0, used)
 				if w2.Calls != W {
 					res.Inconclusive = append(res.Inconclusive, fmt.Sprintf("write count not stable for %s", describe(val)))
 					continue
@@ -153,7 +209,7 @@ func (c15) Run(c Case, env *Env) Result {
 					}
 					fw := &mon.CountingWriter{}
 					var err error
-					pi, _ := Guard(func() { err = c15call(entry, val, copyNames(nameMap), fw, kind, k) })
+					pi, _ := Guard(func() { err = c15call(entry, val, copyNames(nameMap), fw, kind, k, used) })
 					ff := append([]string{"entry=" + c15entries[entry], "fault=" + mon.FaultNames[kind]}, feats...)
 					if pi != nil {
 						env.Viol(&res, Violation{Class: "panic", Features: ff, Detail: fmt.Sprintf("k=%d/%d: %s", k, W, pi.Msg), Case: cc, Input: describe(val)})
